@@ -1,0 +1,225 @@
+//go:build verif
+
+package bbolt
+
+import (
+	"cmp"
+	"iter"
+	"slices"
+	"sync"
+	"sync/atomic"
+
+	fl "go.etcd.io/bbolt/internal/freelist"
+)
+
+// Verification hooks (build tag `verif`): seams for a deterministic simulator.
+// Nothing here draws randomness or reads a clock; every decision is delegated
+// to the installed VerifHooks table. With the tag on but no table installed,
+// every hook is a no-op (map iteration is then in ascending key order, which
+// is one of the orders an unhooked build may produce).
+
+const (
+	verifRWLock = iota
+	verifMetaLock
+	verifMmapLock
+)
+
+// Exported names of the lock identifiers, for the simulator.
+const (
+	VerifRWLock   = verifRWLock
+	VerifMetaLock = verifMetaLock
+	VerifMmapLock = verifMmapLock
+)
+
+// VerifHooks is the table a simulator installs. Any field may be nil.
+type VerifHooks struct {
+	// Write replaces every pwrite issued through db.ops.writeAt. real performs
+	// the actual write; the hook may call it with a shortened buffer, or not
+	// at all, and returns what the caller of WriteAt sees.
+	Write func(db *DB, b []byte, off int64, real func(b []byte, off int64) (int, error)) (int, error)
+	// IO is called before every non-write I/O call (op is one of fdatasync,
+	// truncate, fsync, mmap, munmap, mlock, munlock). A non-nil result is
+	// returned to the caller in place of performing the call.
+	IO func(db *DB, op string, arg int64) error
+	// Lock is called immediately before db.rwlock / db.metalock / db.mmaplock
+	// is acquired. try reports whether the acquisition would succeed right
+	// now (it takes and releases the lock). The hook returns when the caller
+	// may go on to acquire the lock for real.
+	Lock func(db *DB, which int, exclusive bool, try func() bool)
+	// Yield is a pure scheduling point.
+	Yield func(db *DB, point string)
+	// OnceEnter/OnceExit bracket batch.start.Do: seq identifies the batch (in
+	// creation order), busy reports whether another goroutine is inside Do.
+	OnceEnter func(db *DB, seq int, busy func() bool)
+	// Order returns the permutation in which n sorted map entries are to be
+	// visited (nil: ascending).
+	Order func(n int) []int
+	// Freelist, if set, may wrap the freelist a DB is about to use.
+	Freelist func(db *DB, f fl.Interface) fl.Interface
+}
+
+var verifHooks atomic.Pointer[VerifHooks]
+
+// VerifInstall installs (or, with nil, removes) the process-wide hook table.
+func VerifInstall(h *VerifHooks) { verifHooks.Store(h) }
+
+func verifWrapOps(db *DB) {
+	real := db.ops.writeAt
+	db.ops.writeAt = func(b []byte, off int64) (int, error) {
+		if h := verifHooks.Load(); h != nil && h.Write != nil {
+			return h.Write(db, b, off, real)
+		}
+		return real(b, off)
+	}
+}
+
+func verifIO(db *DB, op string, arg int64) error {
+	if h := verifHooks.Load(); h != nil && h.IO != nil {
+		return h.IO(db, op, arg)
+	}
+	return nil
+}
+
+func verifLock(db *DB, which int, exclusive bool) {
+	h := verifHooks.Load()
+	if h == nil || h.Lock == nil {
+		return
+	}
+	var try func() bool
+	switch which {
+	case verifRWLock:
+		try = func() bool {
+			if db.rwlock.TryLock() {
+				db.rwlock.Unlock()
+				return true
+			}
+			return false
+		}
+	case verifMetaLock:
+		try = func() bool {
+			if db.metalock.TryLock() {
+				db.metalock.Unlock()
+				return true
+			}
+			return false
+		}
+	case verifMmapLock:
+		if exclusive {
+			try = func() bool {
+				if db.mmaplock.TryLock() {
+					db.mmaplock.Unlock()
+					return true
+				}
+				return false
+			}
+		} else {
+			try = func() bool {
+				if db.mmaplock.TryRLock() {
+					db.mmaplock.RUnlock()
+					return true
+				}
+				return false
+			}
+		}
+	}
+	h.Lock(db, which, exclusive, try)
+}
+
+func verifYield(db *DB, point string) {
+	if h := verifHooks.Load(); h != nil && h.Yield != nil {
+		h.Yield(db, point)
+	}
+}
+
+var (
+	verifBatchMu   sync.Mutex
+	verifBatchSeq  = map[*batch]int{}
+	verifBatchBusy = map[*batch]bool{}
+	verifBatchN    int
+)
+
+func verifBatchNew(b *batch) {
+	if h := verifHooks.Load(); h == nil || h.OnceEnter == nil {
+		return
+	}
+	verifBatchMu.Lock()
+	verifBatchN++
+	verifBatchSeq[b] = verifBatchN
+	verifBatchMu.Unlock()
+}
+
+func verifOnceEnter(b *batch) {
+	h := verifHooks.Load()
+	if h == nil || h.OnceEnter == nil {
+		return
+	}
+	verifBatchMu.Lock()
+	seq := verifBatchSeq[b]
+	verifBatchMu.Unlock()
+	h.OnceEnter(b.db, seq, func() bool {
+		verifBatchMu.Lock()
+		defer verifBatchMu.Unlock()
+		return verifBatchBusy[b]
+	})
+	verifBatchMu.Lock()
+	verifBatchBusy[b] = true
+	verifBatchMu.Unlock()
+}
+
+func verifOnceExit(b *batch) {
+	if h := verifHooks.Load(); h == nil || h.OnceEnter == nil {
+		return
+	}
+	verifBatchMu.Lock()
+	delete(verifBatchBusy, b)
+	verifBatchMu.Unlock()
+}
+
+// VerifResetBatches forgets the batch bookkeeping between simulated runs.
+func VerifResetBatches() {
+	verifBatchMu.Lock()
+	verifBatchSeq = map[*batch]int{}
+	verifBatchBusy = map[*batch]bool{}
+	verifBatchN = 0
+	verifBatchMu.Unlock()
+}
+
+// verifOrdered makes the iteration order of a map a simulator decision. Like
+// a real map iteration it skips entries deleted meanwhile and never yields
+// entries added meanwhile.
+func verifOrdered[K cmp.Ordered, V any](m map[K]V) iter.Seq2[K, V] {
+	return func(yield func(K, V) bool) {
+		if len(m) == 0 {
+			return
+		}
+		keys := make([]K, 0, len(m))
+		for k := range m {
+			keys = append(keys, k)
+		}
+		slices.Sort(keys)
+		var perm []int
+		if h := verifHooks.Load(); h != nil && h.Order != nil && len(keys) > 1 {
+			perm = h.Order(len(keys))
+		}
+		for i := range keys {
+			k := keys[i]
+			if perm != nil {
+				k = keys[perm[i]]
+			}
+			v, ok := m[k]
+			if !ok {
+				continue
+			}
+			if !yield(k, v) {
+				return
+			}
+		}
+	}
+}
+
+func verifObserveFreelist(db *DB, f fl.Interface) fl.Interface {
+	if h := verifHooks.Load(); h != nil && h.Freelist != nil {
+		return h.Freelist(db, f)
+	}
+	return f
+}
